@@ -304,7 +304,7 @@ def explore(harness, tier, budget_s, per_path_s, journal, seed=0, max_paths=1000
     with condition_parser([AnalysisKind.PEP316]), Patched(), COMPOSITE_TRACER, NoTracing():
         while st['paths'] < max_paths:
             now = time.process_time()
-            if now - t0 > budget_s or time.time() - w0 > budget_s * 1.5:
+            if now - t0 > budget_s or time.time() - w0 > budget_s * 3.0:
                 break
             space = StateSpace(execution_deadline=now + per_path_s, model_check_timeout=per_path_s / 2,
                                search_root=root)
